@@ -21,6 +21,7 @@ import LinVerif.Lemmas.C14StreamExt
 import LinVerif.Lemmas.C14SnappyReuse
 import LinVerif.Lemmas.C14Rejected
 import LinVerif.Lemmas.C14StreamFree
+import LinVerif.Lemmas.C14FoHistory
 
 namespace LinVerif.Props.C14
 open LinVerif LinVerif.Bits LinVerif.Varint
@@ -1480,5 +1481,100 @@ example :
     ((Stream.Reader.fresh [1, 2, 3]).run [.slice 2, .bytes 4, .until 9]).1 = [[1, 2], [3], []] := by decide
 
 end StreamFreeForm
+
+/-! ## 13. a `FixedOffsetDecoder` object under a history of calls: reads leave no trace (Round 12)
+
+`Get`, `GetBlock`, `Size`, `ValueWidth` write nothing outside their own locals (regenerated, tie below), so the object
+a re-arming `Unmarshal` receives differs from a fresh one at most by what earlier `Unmarshal`s left — which
+`Unmarshal` overwrites. Consequence: whatever was asked of the previous table(s), in whatever order and however far
+a scan got, the answers about the next table are those of a fresh decoder, for EVERY order of questions. -/
+
+section FoHistory
+open LinVerif.FixedOffset
+
+/-- **fixedoffset_reads_leave_no_trace.** Any object, any history of calls (`Unmarshal` of any bytes accepted or
+rejected, `Get`, `GetBlock` on any data block, `Size`, `ValueWidth`, in any order), then `Unmarshal(data)` followed by
+ANY list of further calls: the answers are exactly those of `NewFixedOffsetDecoder()` given the same calls; and the
+object after the history depends on the history's `Unmarshal` inputs alone. -/
+theorem fixedoffset_reads_leave_no_trace (d : FixedOffset.Dec) (history : List FixedOffset.DecOp) (data : List Nat)
+    (qs : List FixedOffset.DecOp) :
+    ((d.run history).2.run (.unm data :: qs)).1 = (FixedOffset.Dec.fresh.run (.unm data :: qs)).1 ∧
+    (d.run history).2 = d.feed (unmInputs history) ∧
+    ((∀ op ∈ history, op.isRead = true) → (d.run history).2 = d) :=
+  ⟨rfl, Dec.run_state history d, fun h => Dec.run_reads_state history h d⟩
+
+/-- **fixedoffset_scan_any_order_after_any_history.** A table of non-decreasing offsets inside the data block, given
+to ANY object after ANY history of calls: `GetBlock` for any list of valid indexes — forward scan, backward scan,
+point lookups, repeats, a scan that continues where the scan of the previous table stopped — returns for every
+question the byte range `data[vs[i] : vs[i+1]]` (the last one up to the end of the data block). -/
+theorem fixedoffset_scan_any_order_after_any_history (inc : Bool) (vs junk data : List Nat) (d0 : FixedOffset.Dec)
+    (history : List FixedOffset.DecOp) (idxs : List Nat)
+    (hne : vs ≠ []) (hlt : ∀ v ∈ vs, v < 2 ^ 32) (hlen : vs.length < 2 ^ 32)
+    (hmono : ∀ i (h : i + 1 < vs.length), vs[i] ≤ vs[i + 1]) (hbound : ∀ v ∈ vs, v ≤ data.length)
+    (hidx : ∀ i ∈ idxs, i < vs.length) :
+    ((d0.run history).2.run
+        (.unm ((encOf inc vs).marshal ++ junk) :: idxs.map (fun (i : Nat) => FixedOffset.DecOp.blk (i : Int) data))).1
+      = FixedOffset.DecAns.unm (.ok junk) ::
+        idxs.map (fun (i : Nat) =>
+          FixedOffset.DecAns.blk (.ok ((data.take ((vs[i + 1]?).getD data.length)).drop ((vs[i]?).getD 0)))) := by
+  obtain ⟨d, hu, hb⟩ := fixedoffset_getBlock_correct inc vs junk data (d0.run history).2 hne hlt hlen hmono hbound
+  simp only [Dec.run, Dec.step, hu]
+  rw [(Dec.run_blks data idxs d).1]
+  congr 1
+  apply List.map_congr_left
+  intro i hi
+  have hi' := hidx i hi
+  rw [hb i hi']
+  simp [hi']
+
+/-- non-vacuity: a decoder that scanned the first two blocks of `[0, 10, 30, 60]` (and was asked other things) is
+given `[0, 3, 8]`; `GetBlock(2)` — the continuation of the old scan —, then 0, 1, 2 again: the new table's ranges -/
+example :
+    let data := [1, 2, 3, 4, 5, 6, 7, 8, 9, 10]
+    ((FixedOffset.Dec.fresh.run [.unm (encOf true [0, 10, 30, 60]).marshal, .blk 0 (List.replicate 70 7),
+        .blk 1 (List.replicate 70 7), .size, .get 9]).2.run
+      (.unm (encOf true [0, 3, 8]).marshal :: [2, 0, 1, 2].map (fun (i : Nat) => FixedOffset.DecOp.blk (i : Int) data))).1.drop 1
+      |>.map (fun a => match a with | .blk r => blkOf r | _ => none)
+    = [some [9, 10], some [1, 2, 3], some [4, 5, 6, 7, 8], some [9, 10]] := by decide
+
+/-- TIE: in the source the four read methods write nothing outside their own locals (no receiver field, no element of
+a receiver slice, no package-level variable; `Unmarshal` is the only method that writes the receiver) — what
+`Dec.step` mirrors by returning the object unchanged. `GetBlock`'s statement shape and calls are pinned as well: both
+offsets come from `d.Get`, nothing is remembered between calls. -/
+theorem fixedoffset_reads_write_nothing :
+    Generated.C14.fixedOffsetDecoderGetWrites = [] ∧
+    Generated.C14.fixedOffsetDecoderGetBlockWrites = [] ∧
+    Generated.C14.fixedOffsetDecoderSizeWrites = [] ∧
+    Generated.C14.fixedOffsetDecoderValueWidthWrites = [] ∧
+    Generated.C14.fixedOffsetDecoderUnmarshalWrites = ["recv:offsetsBlock", "recv:width", "recv:size", "recv:width",
+      "recv:size", "recv:offsetsBlock"] ∧
+    Generated.C14.fixedOffsetDecoderGetBlockShape = ["local:startOffset", "local:ok", "if{", "return", "}",
+      "local:endOffset", "local:ok", "if{", "local:endOffset", "}", "if{", "return", "}", "return"] ∧
+    Generated.C14.fixedOffsetDecoderGetBlockCalls = ["d.Get", "len", "fmt.Errorf", "d.Get", "len", "len", "len",
+      "fmt.Errorf"] ∧
+    Generated.C14.getFixedOffsetDecoderCalls = ["fixedOffsetDecoderPool.Get"] ∧
+    Generated.C14.releaseFixedOffsetDecoderCalls = ["fixedOffsetDecoderPool.Put"] :=
+  ⟨rfl, rfl, rfl, rfl, rfl, rfl, rfl, rfl, rfl⟩
+
+namespace Neg
+
+/-- what "reads leave no trace" protects against: a decoder whose `GetBlock` keeps a scan cursor that `Unmarshal`
+does not drop (NOT lindb's code, `FixedOffset.DecC`). Point lookup `GetBlock(0)` on `[0, 10, 30, 60]`, then the
+table `[0, 3, 8]`: `GetBlock(1)` starts at the OLD table's offset 10 — beyond the new end offset 8 — and fails, while
+lindb's decoder returns `data[3:8]`. On one table the cursor decoder is exact. -/
+theorem scan_cursor_survives_unmarshal :
+    let data := [1, 2, 3, 4, 5, 6, 7, 8, 9, 10]
+    let a := (encOf true [0, 10, 30, 60]).marshal
+    let b := (encOf true [0, 3, 8]).marshal
+    let c1 := ((DecC.fresh.unmarshal a).getBlock 0 (List.replicate 70 7)).2
+    blkOf ((c1.unmarshal b).getBlock 1 data).1 = none ∧
+    blkOf ((DecC.fresh.unmarshal b).getBlock 1 data).1 = some [4, 5, 6, 7, 8] ∧
+    blkOf (((FixedOffset.Dec.fresh.run [.unm a, .blk 0 (List.replicate 70 7)]).2.unmarshal b).2.getBlock 1 data)
+      = some [4, 5, 6, 7, 8] := by
+  intro data a b c1; decide
+
+end Neg
+
+end FoHistory
 
 end LinVerif.Props.C14
